@@ -2,6 +2,12 @@ import os
 from vdriver import Job
 
 ID = "C06"
+# not claimed: see NOT_CLAIMED_REASON; the one scalar kernel below is kept runnable (bin/check C06) but is not registered in MANIFEST.checks
+CLAIMED = False
+NOT_CLAIMED_REASON = ("the property is about text: fen::parse/fen::write are nom combinators, Vec, HashSet and format!; symbolic execution of fen::parse on ONE CONCRETE "
+                      "27-byte FEN did not finish in 10 min and the board-field sub-parser with 2 free bytes not in 25 min (measured), so round trip, never-crash and "
+                      "rank-width rejection cannot be encoded within reach; only the move-number arithmetic kernel is decidable, which does not carry the property "
+                      "(DESIGN.md s.6)")
 LEVEL = "other"
 MAIN = "c06"
 MODULES = ["geom", "stubs", "c06"]
